@@ -312,12 +312,15 @@ func Tokenize(source string) ([]Token, error) {
 			// Multiline comment.
 			token = newToken(matches[1], COMMENT, ogRow, ogColumn)
 			match := matches[0]
-			lines := strings.Split(match, "\n")
-			lastLinesIndex := len(lines) - 1
-			row += lastLinesIndex
-			ogColumn = startIndex
 			i += len(match)
-			ogI = i - len(lines[lastLinesIndex])
+
+			// A comment may span several lines, keep row and column in sync.
+			if lines := strings.Split(match, "\n"); len(lines) > 1 {
+				lastLinesIndex := len(lines) - 1
+				row += lastLinesIndex
+				ogColumn = startIndex
+				ogI = i - len(lines[lastLinesIndex])
+			}
 		} else if matches := regexp.MustCompile(`^\/\/(.*)`).FindStringSubmatch(source[i:]); matches != nil {
 			// Single line comment.
 			token = newToken(matches[1], COMMENT, ogRow, ogColumn)
